@@ -1,33 +1,41 @@
-//! Development aid (not a check): prints the home messages of the C10 scenarios.
-
+//! Development aid (not a check).
 use ckb_types::{packed, prelude::*};
-
 use crate::verif::props::c10;
 use crate::verif::scen::{kind_of, Env};
 
 pub(crate) fn run() -> i32 {
     let env = Env::dummy();
-    let w = c10::worlds(&env);
-    for scn in c10::ALL_SCN {
-        let (sim, n) = c10::build(&env, &w, scn);
-        for m in sim.queue.iter().take(n) {
-            let mut extra = String::new();
-            if let Ok(msg) = packed::LightClientMessageReader::from_compatible_slice(&m.data) {
-                if let packed::LightClientMessageUnionReader::SendLastStateProof(p) = msg.to_enum() {
-                    let nums: Vec<u64> = p.headers().iter().map(|h| h.header().raw().number().unpack()).collect();
-                    extra = format!(" headers={:?} proof_items={} last={}", nums, p.proof().len(), Unpack::<u64>::unpack(&p.last_header().header().raw().number()));
-                }
-            }
-            println!("{:?}: {} ({} bytes){}", scn, kind_of(m), m.data.len(), extra);
-        }
-        if let Some(req) = sim.sent_log.iter().rev().find_map(|s| {
-            packed::LightClientMessage::from_slice(&s.data).ok().and_then(|m| match m.to_enum() {
-                packed::LightClientMessageUnion::GetLastStateProof(r) => Some(r),
-                _ => None,
-            })
-        }) {
-            println!("   last request: start={} n_diffs={} boundary={:#x}", Unpack::<u64>::unpack(&req.start_number()), req.difficulties().len(), Unpack::<ckb_types::U256>::unpack(&req.difficulty_boundary()));
+    let params = c10::Params::default();
+    let w = c10::worlds_with(&env, &params);
+    let (mut sim, _n) = c10::build_with(&env, &w, &params, c10::Scn::MatchedBlocks, None);
+    let text = std::fs::read_to_string("/verif/replays/C02/quick-0.json").unwrap();
+    let v: serde_json::Value = serde_json::from_str(&text).unwrap();
+    let hexs = v["replay"]["message_hex"].as_str().unwrap();
+    let bytes: Vec<u8> = (0..hexs.len() / 2).map(|i| u8::from_str_radix(&hexs[2 * i..2 * i + 2], 16).unwrap()).collect();
+    println!("queue: {:?}", sim.queue.iter().map(|m| m.note.clone()).collect::<Vec<_>>());
+    let home = sim.queue[0].data.clone();
+    let diff: Vec<usize> = (0..home.len().min(bytes.len())).filter(|i| home[*i] != bytes[*i]).collect();
+    println!("home len {} mutant len {} diff at {:?}", home.len(), bytes.len(), diff);
+    let msg = packed::SyncMessageReader::from_compatible_slice(&bytes);
+    println!("parse ok: {}", msg.is_ok());
+    println!("world block2 tx0 {:#x}", w.main.blocks[2].transactions()[0].hash());
+    if let Ok(m) = packed::SyncMessageReader::from_compatible_slice(&home) {
+        if let packed::SyncMessageUnionReader::SendBlock(r) = m.to_enum() {
+            let view = r.to_entity().block().into_view();
+            println!("honest tx hashes {:?} root calc {:#x}", view.tx_hashes().iter().map(|h| format!("{:#x}", h)).collect::<Vec<_>>(), view.calc_transactions_root());
+            println!("honest witness hashes {:?}", view.tx_witness_hashes().iter().map(|h| format!("{:#x}", h)).collect::<Vec<_>>());
         }
     }
+    if let Ok(m) = msg {
+        if let packed::SyncMessageUnionReader::SendBlock(r) = m.to_enum() {
+            let b = r.to_entity().block();
+            let view = b.clone().into_view();
+            println!("txroot header {:#x} calc {:#x}", view.transactions_root(), view.calc_transactions_root());
+            println!("mutant witness hashes {:?}", view.tx_witness_hashes().iter().map(|h| format!("{:#x}", h)).collect::<Vec<_>>());
+            println!("tx hashes {:?}", view.tx_hashes().iter().map(|h| format!("{:#x}", h)).collect::<Vec<_>>());
+        }
+    }
+    sim.cm().recv_sync(ckb_network::PeerIndex::new(1), bytes.into());
+    println!("bans {:?}", sim.bans());
     0
 }
